@@ -66,6 +66,9 @@ def check_case(case, p=None, retain=None):
         return [("input-rejected n=%d fmt=%s" % (n, case["fmt"]),
                  "constructing the Stabilizer for a valid input raised %s: %s" % (exc_name(st), st))], None
     stab, fmt_used = st
+    if h64(tuple(case["gens"])) % 3 == 0:
+        call(repr, stab)                    # print(stabilizer) before asking for the circuit: must not matter
+        call(stab.to_list)
     ok, qc = call(get_preparation_circuit, stab, case["conn"])
     if not ok:
         return [("prep-raises n=%d conn=%s" % (n, case["conn"]),
